@@ -1170,6 +1170,49 @@ func (env *SpecEnv) evalCall(x *SExpr) *Val {
 				*env.facts = append(*env.facts, fmt.Sprintf("(<= 0 %s)", r))
 			}
 			return mathInt(r)
+		case "sumall", "sumvisited":
+			// sumall(m, w): sum over the keys k of map m of the pure function w(k, m[k])
+			// sumvisited(m, w): the same over the keys visited so far by the loop's iterator
+			m := env.eval(args[0])
+			mt, ok := m.T.Underlying().(*types.Map)
+			if !ok || len(e.mapKeySorts(mt)) != 1 {
+				env.fail("%s needs a map with a scalar key", fn.Name)
+			}
+			pf := e.w.pure(env.pkg, args[1].Name)
+			if pf == nil || len(pf.Params) != 2 {
+				env.fail("%s: %s is not a pure function of (key, value)", fn.Name, args[1].Name)
+			}
+			mc := e.mapInfo(mt)
+			kq := fmt.Sprintf("k!w%d", e.s.n)
+			e.s.n++
+			kv := intVal(mt.Key(), kq)
+			_, vv := e.mapGet(env.cur, mt, m.term(), kv)
+			wenv := &SpecEnv{e: e, cur: env.cur, old: env.old, pkg: pf.Pkg, depth: env.depth + 1}
+			wenv.vars = map[string]*Val{pf.Params[0]: kv, pf.Params[1]: vv}
+			var wfacts []string
+			wenv.facts = &wfacts
+			body := wenv.eval(pf.Body)
+			W := e.s.Fresh("W", "(Array Int Int)")
+			def := fmt.Sprintf("(forall ((%s Int)) (! (= (select %s %s) %s) :pattern ((select %s %s))))", kq, W, kq, body.term(), W, kq)
+			var set string
+			if fn.Name == "sumall" {
+				set = sel(e.comp(env.cur, mc.dom, mc.domS), m.term())
+				if env.facts != nil {
+					// a map with a key has a positive length
+					*env.facts = append(*env.facts, fmt.Sprintf("(forall ((%s Int)) (! (=> (select %s %s) (>= %s 1)) :pattern ((select %s %s))))", kq, set, kq, e.mapLen(env.cur, mt, m.term()), set, kq))
+				}
+			} else {
+				it := env.loopIter()
+				set = e.comp(env.cur, it.comp, it.compSort)
+			}
+			e.useSum2()
+			if env.facts != nil {
+				*env.facts = append(*env.facts, def)
+				for _, f := range wfacts {
+					*env.facts = append(*env.facts, fmt.Sprintf("(forall ((%s Int)) %s)", kq, f))
+				}
+			}
+			return mathInt(fmt.Sprintf("(sum2 %s %s)", set, W))
 		case "mk":
 			// mk(T, f1, f2, ...): a struct value of type T from its fields in declaration order
 			t := e.w.resolveType(env.pkg, args[0].String())
